@@ -242,3 +242,41 @@ func FuzzC17(f *testing.F) {
 		fuzzFail(t, c17Main, c)
 	})
 }
+
+func FuzzC03(f *testing.F) {
+	f.Add([]byte("12345678901234567890"), uint64(0), uint8(2), uint8(6), uint8(0), []byte("755224"), false)
+	f.Add([]byte("k"), uint64(1<<63), uint8(10), uint8(10), uint8(2), []byte("0000000000"), false)
+	f.Add([]byte{}, uint64(1<<64-1), uint8(0), uint8(1), uint8(1), []byte("7"), true)
+	f.Fuzz(func(t *testing.T, key []byte, counter uint64, skew, digits, algo uint8, code []byte, nilp bool) {
+		if len(key) > 200 || len(code) > 40 {
+			return
+		}
+		c := c03Case{Key: key, Sp: gen.Spelling{Pad: 1}, Counter: counter, Skew: uint64(skew % 14), Digits: int(digits % 12), Algo: int(algo % 4), NilParam: nilp, Code: code, Origin: "fuzz"}
+		// half of the time submit a real code near the centre, derived from the fuzzer's bytes
+		if len(code) > 0 && code[0]&1 == 1 && c.Digits >= 1 && c.Digits <= 10 && c.Algo <= 2 && !nilp {
+			d := int(code[0]>>1)%(2*int(c.Skew)+7) - int(c.Skew) - 3
+			c.Code = []byte(ref.MustHOTP(key, counter+uint64(int64(d)), c.Digits, c.Algo))
+		}
+		fuzzFail(t, c03Main, c)
+	})
+}
+
+func FuzzC04(f *testing.F) {
+	f.Add([]byte("12345678901234567890"), uint64(59), uint32(30), uint8(1), uint8(8), uint8(0), []byte("94287082"))
+	f.Add([]byte("k"), uint64(1<<40), uint32(0), uint8(10), uint8(6), uint8(1), []byte("\x03"))
+	f.Fuzz(func(t *testing.T, key []byte, unix uint64, period uint32, skew, digits, algo uint8, code []byte) {
+		if len(key) > 200 || len(code) > 40 || unix >= 1<<62 {
+			return
+		}
+		c := c04Case{Key: key, Sp: gen.Spelling{Pad: 1}, Unix: int64(unix), Period: uint64(period), Skew: uint64(skew % 14), Digits: int(digits % 12), Algo: int(algo % 4), Code: code, Origin: "fuzz"}
+		p := c.Period
+		if p == 0 {
+			p = 30
+		}
+		if len(code) > 0 && code[0]&1 == 1 && c.Digits >= 1 && c.Digits <= 10 && c.Algo <= 2 {
+			d := int(code[0]>>1)%(2*int(c.Skew)+7) - int(c.Skew) - 3
+			c.Code = []byte(ref.MustHOTP(key, uint64(c.Unix)/p+uint64(int64(d)), c.Digits, c.Algo))
+		}
+		fuzzFail(t, c04Main, c)
+	})
+}
